@@ -346,6 +346,7 @@ func (s *Sel) Wait() int {
 	default:
 		panic("sched: scheduled a select with no ready case")
 	}
+	x.foldResult(t, uint64(idx)+101)
 	s.fire(x, t, idx)
 	return idx
 }
